@@ -15,6 +15,8 @@ def dispatch (line : String) : String :=
   | "pidfile" :: rest => Pidfile.Drv.handle rest
   | "redir" :: rest => Redirector.Drv.handle rest
   | "signum" :: rest => Signum.Drv.handle rest
+  | "reload" :: rest => Reload.Drv.handle rest
+  | "sock" :: rest => Sockets.Drv.handle rest
   | _ => "bad-op"
 
 partial def loop (h : IO.FS.Stream) (out : IO.FS.Stream) : IO Unit := do
